@@ -153,7 +153,7 @@ def axis_term(axis, rank):
 def _b_len(interp, args, kw, st, node):
     x = args[0]
     if x.kind == "maybe":
-        x = x.items[0]
+        x = x.items[0] if x.items else V("unk", x.term, labels=x.labels, orig=x.orig)
     if x.kind in ("list", "tuple", "dict", "set") and x.items is not None:
         return vconst(len(x.items))
     if x.kind == "str" and x.has_const:
@@ -226,7 +226,7 @@ def _type_names(tv):
 def _b_isinstance(interp, args, kw, st, node):
     x, tv = args[0], args[1]
     if x.kind == "maybe":
-        x = x.items[0]
+        x = x.items[0] if x.items else V("unk", x.term, labels=x.labels, orig=x.orig)
     names = _type_names(tv)
     if names is None:
         return vbool(T("isinstance", x.term, tv.term), x.labels)
